@@ -394,7 +394,8 @@ def judge(rec, nested, script, monotone=True):
             # smallest field is over-satisfied at minimum height, while the answer comes from another list): a returned design that is
             # a regular one - interior height, excess zero - is not an "unmet" outcome and is not judged by this clause
             regular = rec["kind"] in ("2d", "zd") and HMIN + 1e-9 < H < HMAX - 1e-9 and abs(e_final) <= 1e-3
-            if (count != smallest or abs(H - HMIN) > 1e-9) and not regular:
+            smallest_ok = {min(c_ for k_, c_ in cnt.items() if k_[0] == li_) for li_ in {k_[0] for k_ in cnt}}  # smallest field of any one list
+            if (count not in smallest_ok or abs(H - HMIN) > 1e-9) and not regular:
                 out["C02"].append(("scripted:unmet-small-not-smallest-at-min-height", f"{rec['kind']} cap {cap}: returned {count} bh at {H}"))
     return out
 
